@@ -356,7 +356,8 @@ fn draw_clock(rng: &mut Rng) -> usize {
 /// consistent square exists (uniform among them).  Both clocks are drawn independently from
 /// {0,1,49,50,98,99,100,101,150, uniform 0..400}.
 pub fn g2_candidate(rng: &mut Rng) -> Option<ChessBoard> {
-    let n = rng.range(2, 32);
+    // (sixth wave, C20-f) validity bounds only the kings: one candidate in twelve is CROWDED, 33..=62 men
+    let n = if rng.pct(8) { rng.range(33, 62) } else { rng.range(2, 32) };
     let mut cells: [Option<Piece>; 64] = [None; 64];
     let wk = rng.below(64);
     cells[wk] = Some(Piece(PieceType::King, Color::White));
@@ -841,6 +842,21 @@ pub fn g8_candidate(rng: &mut Rng) -> Option<(ChessBoard, String)> {
                 }
             }
             label.push("box");
+        }
+    }
+    // (sixth wave, C03-f) promotion motif: with probability 25 % an own pawn one step from promotion (so that positions arise
+    // in which every legal move is a promotion)
+    if rng.pct(25) {
+        let seventh: i32 = if own == Color::White { 6 } else { 1 };
+        for _ in 0..8 {
+            let f = rng.below(8) as i32;
+            if let Some(s) = at(seventh, f) {
+                if cells[s].is_none() && !reserved[s] {
+                    cells[s] = Some(Piece(PieceType::Pawn, own));
+                    label.push("prm");
+                    break;
+                }
+            }
         }
     }
     // enemy king
